@@ -165,7 +165,7 @@ campaign_build.shards = (4, 16)
 # sizeof paths
 # ---------------------------------------------------------------------------------------------
 UNSIZABLE = {"varint", "zigzag", "cstr", "gbytes", "gstr", "grange", "runtil", "nullterm", "nullstrip", "select", "optional",
-             "terminated", "stopif", "error", "compressed", "union"}
+             "terminated", "stopif", "error", "compressed", "union", "lazybound"}
 
 
 class Unsure(Exception):
@@ -197,7 +197,7 @@ def szfail(spec, sc):
     if k == "pascal":
         r = szfail(spec[1], sc)
         return r if r is not None else ()
-    if k in ("enum", "flagsenum", "mapping", "oneof", "noneof", "hex", "hexdump", "rebuild", "default", "docs", "xor"):
+    if k in ("enum", "flagsenum", "mapping", "oneof", "noneof", "hex", "hexdump", "rebuild", "default", "docs", "xor", "exprsym", "expradd", "exprvalid"):
         return szfail(spec[2] if k == "xor" else spec[1], sc)
     if k == "rol":
         return szfail(spec[3], sc)
